@@ -49,15 +49,19 @@ fn build_group(tape: &[u8], stats: &mut GenStats, n_variants: usize) -> Option<G
     let mut t0 = Tape::new(tape);
     let base0 = build_base(&mut t0, &cfg, stats)?;
     let enum_names: Vec<String> = base0.world.schema.enums.iter().map(|e| e.name.clone()).collect();
+    // skip_serializing_none is not wire-neutral, so it is the same for the whole group: the neutral
+    // options must not interfere with it either (attribute order, extern enums, ...)
+    let group_skip_none = Tape::new(&super::subtape(tape, 9100, 8)).chance(40);
     let mut items = Vec::new();
     let mut max_diff = 0;
     for k in 0..n_variants {
-        let opts = if k == 0 {
+        let mut opts = if k == 0 {
             baseline()
         } else {
             let sub = super::subtape(tape, 9000 + k as u64, 64);
             variant_opts(&mut Tape::new(&sub), &enum_names, k)
         };
+        opts.skip_none = group_skip_none;
         if k > 0 {
             let b = baseline();
             let d = (opts.normalization_rust != b.normalization_rust) as usize
